@@ -9,7 +9,7 @@ if ! git -C "$WT" apply --3way "$S/patch.diff" 2>/tmp/seedapply.$$; then
 fi
 if [ -f "$S/demo.py" ]; then /venv/bin/python "$S/demo.py" "$WT" >/dev/null 2>&1; echo "demo_exit_changed=$?"; /venv/bin/python "$S/demo.py" /repo >/dev/null 2>&1; echo "demo_exit_unchanged=$?"; fi
 for C in "$@"; do
-  VERIF_REPO="$WT" /verif/bin/check "$C" "$TIER" > /tmp/seedrun.$$ 2>&1; rc=$?
+  VERIF_REPLAY_TAG=-seed VERIF_REPO="$WT" /verif/bin/check "$C" "$TIER" > /tmp/seedrun.$$ 2>&1; rc=$?
   echo "check=$C rc=$rc $(grep -c '^VIOLATION' /tmp/seedrun.$$) violations; $(grep -m1 '^VIOLATION' /tmp/seedrun.$$ | sed 's/.*# //')"
   grep -E "MACHINERY" /tmp/seedrun.$$ | head -3
 done
